@@ -81,6 +81,8 @@ pub trait Obj {
     async fn typed(&self, a: Args, sel: Small) -> Result<Reply, CallError>;
     async fn add(&mut self, a: Args) -> Result<Reply, CallError>;
     #[no_cancel]
+    /// The marker is deliberately not the last attribute here (and is the last one on `get_nc`):
+    /// its position among a method's attributes must not matter.
     async fn add_nc(&mut self, a: Args) -> Result<Reply, CallError>;
 }
 
@@ -102,7 +104,9 @@ pub trait ObjV2 {
 #[remoc::rtc::remote(clone)]
 pub trait Ro {
     async fn get(&self, a: Args) -> Result<Reply, CallError>;
+    /// Marker between other attributes.
     #[no_cancel]
+    #[allow(clippy::needless_lifetimes)]
     async fn get_nc(&self, a: Args) -> Result<Reply, CallError>;
     async fn typed(&self, a: Args, sel: Small) -> Result<Reply, CallError>;
 }
